@@ -297,10 +297,19 @@ def run_meta(payload) -> Dict[str, Any]:
     from krrood.entity_query_language.symbol_graph import SymbolGraph
     from test.dataset.university_ontology_like_classes import Company, Person
 
-    def assertions(tag):
+    def assertions(tag, dead_sources=()):
         np_, nc_, acts = payload["np"], payload["nc"], payload["acts"]
         ps = [Person(name=f"{tag}p{i}") for i in range(np_)]
         cs = [Company(name=f"{tag}c{i}") for i in range(nc_)]
+        # garbage that was related TO the objects of the assertions: a company that was a sub-organisation of cs[j] and is
+        # gone (collected; its node swept or not yet) before the assertions are made
+        for k, (j, sweep) in enumerate(dead_sources):
+            g_ = Company(name=f"{tag}dead{k}")
+            g_.sub_organization_of = [cs[j % nc_]]
+            del g_
+            gc.collect()
+            if sweep:
+                SymbolGraph().remove_dead_instances()
         log = []
         for kind, i, j in acts:
             try:
@@ -313,7 +322,7 @@ def run_meta(payload) -> Dict[str, Any]:
                 elif kind == "sub":
                     cs[i % nc_].sub_organization_of.append(cs[j])
             except Exception as e:  # noqa
-                log.append(["exc", type(e).__name__])
+                log.append(["exc", type(e).__name__, kind, i, j])
         sg = SymbolGraph()
         num = {id(x): k for k, x in enumerate(ps + cs)}
         fields_ = [[(-1 if p.works_for is None else num.get(id(p.works_for), -2)),
@@ -351,7 +360,7 @@ def run_meta(payload) -> Dict[str, Any]:
         gc.collect()
         if sweep:
             SymbolGraph().remove_dead_instances()
-    after = assertions("a")
+    after = assertions("a", payload.get("dead_sources", ()))
     sg = SymbolGraph()
     sizes_after = [len(sg._instance_graph.nodes()), len(sg._instance_index)]
     keepers.clear()
